@@ -270,8 +270,7 @@ theorem yes_cover_group_is_Z3_presented (s : DS.DSymData) (f : Facts) (hf : Fact
     (hyes : decideVerdict f = .yes) :
     ∃ (cov : DS.DSymData) (gens srels : List (List Int)), D3.pseudoToroidalCover s = .ok (some cov) ∧
       Inv.abelianInvariants gens.length srels = .ok [0, 0, 0] ∧
-      ((∀ w ∈ srels, ∀ g ∈ w, Inv.InRange gens.length g) →
-        SpecC14.expected gens.length srels = [0, 0, 0]) ∧
+      SpecC14.expected gens.length srels = [0, 0, 0] ∧
       Nonempty (FGP.TGroup cov ≃* PresentedGroup (CosetP.relSet gens.length srels)) := by
   obtain ⟨_, _, _, cov, _, _, _, _, ho, _, _⟩ := yes_carries_certificate s f hf hs.toValidTables hsz hF hyes
   obtain ⟨gens, srels, h1, h2, h3⟩ := C15.ptc_cover_group_presentation s cov hs hsz hF hconn ho
@@ -289,8 +288,8 @@ theorem yes_cover_group_is_Z3_presented (s : DS.DSymData) (f : Facts) (hf : Fact
     * with **fundamental group isomorphic to a subgroup `K` of finite index** `rows(t)` of the
       orbifold group of the oriented cover (the stabiliser of row 0 of the monodromy action), and to
       the presented group `⟨gens | srels⟩` whose **abelian invariants are `[0, 0, 0]`** (model value
-      of `abelian_invariants` = determinantal-divisor definition for relators over the
-      generators): first homology free of rank 3.
+      of `abelian_invariants` = determinantal-divisor definition); its **abelianisation is ℤ³**
+      (`Abelianization (TGroup cov) ≃* Multiplicative (Fin 3 → ℤ)`).
     The two facts behind `simplify` (it succeeded; canonical key of the cubic tiling) are part of
     `decide_yes_iff` but have no model. -/
 theorem yes_certificate_sound (s : DS.DSymData) (f : Facts) (hf : FactsOf s f)
@@ -316,8 +315,8 @@ theorem yes_certificate_sound (s : DS.DSymData) (f : Facts) (hf : FactsOf s f)
             (CoversP.rhoT hsoc hdim hfg hV))) ∧
         Nonempty (FGP.TGroup cov ≃* PresentedGroup (CosetP.relSet gens.length srels)) ∧
         Inv.abelianInvariants gens.length srels = .ok [0, 0, 0] ∧
-        ((∀ w ∈ srels, ∀ g ∈ w, Inv.InRange gens.length g) →
-          SpecC14.expected gens.length srels = [0, 0, 0]) := by
+        SpecC14.expected gens.length srels = [0, 0, 0] ∧
+        Nonempty (Abelianization (FGP.TGroup cov) ≃* Multiplicative (Fin 3 → ℤ)) := by
   obtain ⟨h3, h4, inv, cov, hinv, hmem, hw, hr, ho, hcf, _⟩ :=
     yes_carries_certificate s f hf hs.toValidTables hsz hF hyes
   obtain ⟨hb, hv, hc, _⟩ := C15.ptc_result_is_branchfree s cov hs hsz hF ho
@@ -325,7 +324,8 @@ theorem yes_certificate_sound (s : DS.DSymData) (f : Facts) (hf : FactsOf s f)
     C15.ptc_cover_group_is_selected_subgroup s cov hs hsz hF hconn ho
   exact ⟨h3, h4, inv, cov, hinv, hmem, hw, hr, ho, hcf,
     C15.ptc_result_is_oriented s cov hs.toValidTables hsz hF ho, hv, hc, hb,
-    oc, fg, t, hsoc, hdim, hfg, hV, gens, srels, hoc, hsize, hidx, heK, heP, hai, hexp⟩
+    oc, fg, t, hsoc, hdim, hfg, hV, gens, srels, hoc, hsize, hidx, heK, heP, hai, hexp,
+    C15.ptc_cover_has_H1_Z3 s cov hs hsz hF hconn ho⟩
 
 /-! ### open (not theorems): the statements, for the record -/
 
